@@ -230,37 +230,43 @@ Proof.
   split; [eapply decode_keyset_wire; exact D | exact H].
 Qed.
 
-(* ---- the no-secrets APIs, with the handle ---- *)
+(* ---- the no-secrets APIs, with the handle (/repo b141c20) ---- *)
 Theorem no_secrets_ok_iff ks h :
   handle_no_secrets L (Some ks) = Ok h <->
-  (handle_from_proto (Some ks) = Ok h /\ Forall (fun k => public_or_remote (key_material k)) (ks_keys ks)).
+  (handle_from_proto (Some ks) = Ok h /\ Forall (fun k => public_or_remote (key_material k)) (ks_keys ks)
+   /\ Forall (fun e => public_or_remote (out_material e)) h).
 Proof.
-  unfold Untrusted.handle_no_secrets. rewrite <- has_secrets_iff. destruct (has_secrets ks).
-  - split; [discriminate | intros [_ X]; discriminate].
-  - split; [intros H; split; [exact H | reflexivity] | intros [H _]; exact H].
+  rewrite handle_no_secrets_spec, <- has_secrets_iff, <- handle_has_secrets_iff. destruct (has_secrets ks).
+  - split; [discriminate | intros (_ & X & _); discriminate].
+  - destruct (handle_from_proto (Some ks)) as [h0| |]; try (split; [discriminate | intros (X & _); discriminate]).
+    destruct (handle_has_secrets h0) eqn:S.
+    + split; [discriminate | intros (X & _ & Y); inversion X; subst; congruence].
+    + split; [intros X; inversion X; subst; auto | intros (X & _); exact X].
 Qed.
 
 Theorem read_no_secrets_ok_iff b h :
   read_no_secrets L b = Ok h <->
   exists ks, decode_keyset b = Some ks /\ handle_from_proto (Some ks) = Ok h
-             /\ Forall (fun k => public_or_remote (key_material k)) (ks_keys ks).
+             /\ Forall (fun k => public_or_remote (key_material k)) (ks_keys ks)
+             /\ Forall (fun e => public_or_remote (out_material e)) h.
 Proof.
   unfold Untrusted.read_no_secrets. destruct (decode_keyset b) as [ks|].
   - rewrite no_secrets_ok_iff. split.
-    + intros [A B]. exists ks. auto.
-    + intros (ks' & E & A & B). inversion E; subst. auto.
+    + intros (A & B & C). exists ks. auto.
+    + intros (ks' & E & A & B & C). inversion E; subst. auto.
   - split; [discriminate | intros (ks' & E & _); discriminate].
 Qed.
 
-(* Public/remote-only keysets: the no-secrets APIs return exactly the handle
-   the cleartext construction returns. *)
+(* Keysets whose labels and key objects are public/remote only: the no-secrets
+   APIs return exactly the handle the cleartext construction returns. *)
 Theorem no_secrets_apis_return_the_handle ks h :
   handle_from_proto (Some ks) = Ok h ->
   Forall (fun k => public_or_remote (key_material k)) (ks_keys ks) ->
+  Forall (fun e => public_or_remote (out_material e)) h ->
   handle_no_secrets L (Some ks) = Ok h
   /\ forall b, decode_keyset b = Some ks -> read_no_secrets L b = Ok h /\ read L b = Ok h.
 Proof.
-  intros H P. split; [apply no_secrets_ok_iff; auto|].
+  intros H P Q. split; [apply no_secrets_ok_iff; auto|].
   intros b D. split; [apply read_no_secrets_ok_iff; exists ks; auto|].
   unfold read. rewrite D. destruct (ks_keys ks) eqn:E; [|exact H].
   exfalso. unfold Untrusted.handle_from_proto, validate in H. rewrite E in H. discriminate.
@@ -283,7 +289,7 @@ Proof.
   split.
   - unfold write_no_secrets. destruct h; [congruence|]. cbv zeta. rewrite S. reflexivity.
   - apply read_no_secrets_ok_iff. exists (proto_of_handle h). split; [exact D|]. split; [exact R|].
-    apply has_secrets_iff. exact S.
+    split; [apply has_secrets_iff; exact S | exact P].
 Qed.
 
 End Handles.
@@ -385,56 +391,81 @@ Proof.
   - discriminate.
 Qed.
 
-(* On keysets whose key types all check the label (everything except HMAC,
-   AES-CMAC, the three PRF types and unregistered URLs), import and export
-   agree: NewHandleWithNoSecrets fails exactly when WriteWithNoSecrets of the
-   cleartext handle fails, exactly when some key holds symmetric or private
-   material by its TYPE. *)
-Theorem no_secrets_import_export_agree ks h :
+(* a key object that serialises to public or remote material came in with a
+   public or remote label (public key types check the label, the fallback key
+   keeps it, every other kind serialises to symmetric or private material) *)
+Lemma public_material_public_label ks h : handle_from_proto L (Some ks) = Ok h ->
+  Forall (fun e => public_or_remote (out_material e) -> public_or_remote (emat e)) h.
+Proof.
+  intros H. pose proof (accepted_label_is_material ks h H) as A. pose proof (out_material_by_url L ks h H) as M.
+  clear H. induction M as [|e t [Me _] _ IH]; [constructor|].
+  inversion A as [|? ? Ae At]; subst. constructor; [|apply IH; exact At].
+  intros P. destruct (label_checked (url_tag (eurl e))) eqn:C.
+  - rewrite (Ae eq_refl). exact P.
+  - unfold label_checked in C. apply negb_false_iff in C. unfold memt in C. apply existsb_exists in C.
+    destruct C as (x & Hx & E). apply N.eqb_eq in E. subst x.
+    rewrite Me in P. unfold url_material in P.
+    cbn [In] in Hx. destruct Hx as [X|[X|[X|[X|[X|[X|[]]]]]]]; rewrite <- X in P; vm_compute in P;
+      [exact P | | | | |]; destruct P; discriminate.
+Qed.
+
+(* THE no-secrets import theorem, all 37 transcribed key types and the
+   fallback key (/repo b141c20; before it the five parsers that ignore the
+   label let mislabelled symmetric keys in): on a keyset the cleartext
+   construction accepts as h, NewHandleWithNoSecrets returns h iff every key
+   object serialises to public or remote material, iff WriteWithNoSecrets
+   writes h; otherwise it is an error. *)
+Theorem no_secrets_import_iff_export ks h :
   handle_from_proto L (Some ks) = Ok h ->
-  Forall (fun e => label_checked (url_tag (eurl e)) = true) h ->
-  (handle_no_secrets L (Some ks) = Ok h <-> exists b, write_no_secrets h = Ok b)
+  (handle_no_secrets L (Some ks) = Ok h <-> Forall (fun e => public_or_remote (out_material e)) h)
+  /\ (handle_no_secrets L (Some ks) = Ok h <-> exists b, write_no_secrets h = Ok b)
   /\ (handle_no_secrets L (Some ks) = Err <-> Exists (fun e => ~ public_or_remote (url_material (eurl e) (emat e))) h).
 Proof.
-  intros H C.
-  pose proof (accepted_label_is_material ks h H) as A.
+  intros H.
+  pose proof (public_material_public_label ks h H) as PL.
   pose proof (out_material_by_url L ks h H) as M.
   destruct (handle_from_proto_full L ks h H) as [F (e0 & Hin0 & _)].
   assert (Hne : h <> []) by (intros ->; destruct Hin0).
-  (* labels of the keyset = materials of the entries *)
-  assert (Q : Forall (fun k => public_or_remote (key_material k)) (ks_keys ks)
-              <-> Forall (fun e => public_or_remote (out_material e)) h).
-  { clear H Hin0 Hne M. induction F as [|k e keys es [_ (pk & kd & -> & D & _ & _ & Mt & _)] _ IH].
-    - split; constructor.
-    - inversion C as [|? ? Ce Ct]; subst. inversion A as [|? ? Ae At]; subst. specialize (IH Ct At).
-      rewrite !Forall_cons_iff. cbn [key_material]. rewrite D, <- Mt, (Ae Ce). tauto. }
-  assert (W := write_no_secrets_iff h Hne).
+  assert (Q : Forall (fun e => public_or_remote (out_material e)) h ->
+              Forall (fun k => public_or_remote (key_material k)) (ks_keys ks)).
+  { clear H Hin0 Hne M. induction F as [|k e keys es [_ (pk & kd & -> & D & _ & _ & Mt & _)] _ IH]; [constructor|].
+    inversion PL as [|? ? Pe Pt]; subst. intros X. inversion X as [|? ? Xe Xt]; subst.
+    constructor; [|apply IH; assumption]. cbn [key_material]. rewrite D, <- Mt. apply Pe. exact Xe. }
+  assert (I : handle_no_secrets L (Some ks) = Ok h <-> Forall (fun e => public_or_remote (out_material e)) h).
+  { rewrite no_secrets_ok_iff. split; [tauto | intros X; auto]. }
+  split; [exact I|]. split; [rewrite I; symmetry; apply write_no_secrets_iff; exact Hne|].
+  assert (E : Forall (fun e => public_or_remote (out_material e)) h
+              <-> Forall (fun e => public_or_remote (url_material (eurl e) (emat e))) h).
+  { clear -M. induction M as [|e t [Me _] _ IH]; [split; constructor|].
+    rewrite !Forall_cons_iff, Me. tauto. }
   split.
-  - rewrite no_secrets_ok_iff. rewrite W, <- Q. tauto.
-  - assert (E : Forall (fun e => public_or_remote (out_material e)) h
-                <-> Forall (fun e => public_or_remote (url_material (eurl e) (emat e))) h).
-    { clear -M. induction M as [|e t [Me _] _ IH]; [split; constructor|].
-      split; intros X; inversion X; subst; constructor; try tauto; congruence. }
-    split.
-    + intros Herr. apply neg_Forall_Exists_neg.
-      * intros e. unfold public_or_remote. destruct (N.eq_dec (url_material (eurl e) (emat e)) 3);
-          destruct (N.eq_dec (url_material (eurl e) (emat e)) 4); (left; tauto) || (right; tauto).
-      * intros Hall. apply E, Q in Hall.
-        assert (handle_no_secrets L (Some ks) = Ok h) by (apply no_secrets_ok_iff; auto). congruence.
-    + intros Hex. destruct (handle_no_secrets L (Some ks)) as [h'| |] eqn:R; [| reflexivity |].
-      * exfalso. apply no_secrets_ok_iff in R. destruct R as [_ R]. apply Q, E in R.
-        rewrite Exists_exists in Hex. destruct Hex as (e & Hin & Hn). rewrite Forall_forall in R. exact (Hn (R e Hin)).
-      * exfalso. exact (handle_no_secrets_np L _ R).
+  - intros Herr. apply neg_Forall_Exists_neg.
+    + intros e. unfold public_or_remote. destruct (N.eq_dec (url_material (eurl e) (emat e)) 3);
+        destruct (N.eq_dec (url_material (eurl e) (emat e)) 4); (left; tauto) || (right; tauto).
+    + intros Hall. apply E, I in Hall. congruence.
+  - intros Hex. destruct (handle_no_secrets L (Some ks)) as [h'| |] eqn:R; [| reflexivity |].
+    + exfalso. apply no_secrets_ok_iff in R. destruct R as (R0 & _ & R). rewrite H in R0. inversion R0; subst h'.
+      apply E in R. rewrite Exists_exists in Hex. destruct Hex as (e & Hin & Hn). rewrite Forall_forall in R. exact (Hn (R e Hin)).
+    + exfalso. exact (handle_no_secrets_np L _ R).
+Qed.
+
+(* every handle a no-secrets reader returns can be written by WriteWithNoSecrets
+   and holds no key whose serializer writes symmetric or private material *)
+Theorem no_secrets_handle_is_exportable ks h :
+  handle_no_secrets L ks = Ok h ->
+  (exists b, write_no_secrets h = Ok b) /\ Forall (fun e => public_or_remote (out_material e)) h.
+Proof.
+  intros R. destruct (handle_no_secrets_inv L ks h R) as [H S]. apply handle_has_secrets_iff in S.
+  split; [|exact S]. apply write_no_secrets_iff; [|exact S].
+  destruct ks as [k|]; [|discriminate]. destruct (handle_from_proto_full L k h H) as [_ (e & Hin & _)].
+  intros ->. destruct Hin.
 Qed.
 
 End Labels.
 
-(* The five parsers that never look at the label make the no-secrets IMPORT
-   trust it: an HmacKey labelled ASYMMETRIC_PUBLIC is accepted by
-   NewHandleWithNoSecrets / ReadWithNoSecrets although the key object holds
-   symmetric key material (which WriteWithNoSecrets then refuses to write).
-   "fail for every keyset containing symmetric key material" is false when
-   "containing" is read by content rather than by label. *)
+(* The witness of the former finding (an HmacKey labelled ASYMMETRIC_PUBLIC):
+   the cleartext reader accepts it, the key object holds symmetric material,
+   and the no-secrets import now refuses it, as the export always did. *)
 Definition refuting_std : stdlib :=
   mkStd (fun _ _ => false) (fun _ _ => None) (fun _ => []) (fun _ _ => None) (fun _ _ => [])
         (fun _ _ _ _ _ => None) (fun _ _ _ _ _ _ _ _ => false).
@@ -442,16 +473,19 @@ Definition mislabelled_hmac_keyset : keyset :=
   mkKS 7 [Some (mkPK (Some (mkKD u_hmac ([18; 4; 8; 3; 16; 16] ++ [26; 16] ++ repeat 9 16%nat) km_public))
                      st_enabled 7 pt_tink)].
 
-Theorem no_secrets_import_trusts_the_label_refuted :
-  exists ks h e,
-    handle_no_secrets refuting_std (Some ks) = Ok h
-    /\ read_no_secrets refuting_std (ser_keyset ks) = Ok h
-    /\ In e h /\ out_material e = km_symmetric /\ url_material (eurl e) (emat e) = km_symmetric
+Theorem mislabelled_symmetric_key_rejected_at_import :
+  exists h e,
+    handle_from_proto refuting_std (Some mislabelled_hmac_keyset) = Ok h
+    /\ has_secrets mislabelled_hmac_keyset = false
+    /\ In e h /\ out_material e = km_symmetric
+    /\ handle_no_secrets refuting_std (Some mislabelled_hmac_keyset) = Err
+    /\ read_no_secrets refuting_std (ser_keyset mislabelled_hmac_keyset) = Err
     /\ write_no_secrets h = Err.
 Proof.
-  exists mislabelled_hmac_keyset. eexists. eexists.
+  eexists. eexists.
   split; [vm_compute; reflexivity|]. split; [vm_compute; reflexivity|].
-  split; [left; reflexivity|]. split; [vm_compute; reflexivity|]. split; vm_compute; reflexivity.
+  split; [left; reflexivity|]. split; [vm_compute; reflexivity|].
+  split; [vm_compute; reflexivity|]. split; vm_compute; reflexivity.
 Qed.
 
 (* ------------------------------------------------------------------ *)
